@@ -49,7 +49,7 @@ func (c16) Plan(tier string, seed int64) []mon.Workload {
 	if tier == "thorough" {
 		n = 120
 	}
-	return []mon.Workload{{Name: "rounds", N: n, Procs: 8, MaxWorkers: 2, BatchTimeoutS: 3000}}
+	return []mon.Workload{{Name: "rounds", N: n, Procs: 8, MaxWorkers: 2, BatchTimeoutS: 3000, CaseTimeoutS: 900}}
 }
 
 var c16Shared = map[string]string{
@@ -68,6 +68,8 @@ var c16Shared = map[string]string{
 	"reader.p": "add_key(seen_w, w)\nadd_key(seen_q, q)\nadd_key(seen_x, x)\nif true {\n  w = \"mine\"\n}\nadd_key(seen_w2, w)\n",
 	// SQL with string literals that end in a backslash / hold an escaped quote / are ambiguous between both readings, chosen by the point
 	"sql.p": "if n % 3 == 0 {\n  add_key(q3, \"select * from t where p = 'C:\\\\'\")\n} elif n % 3 == 1 {\n  add_key(q3, \"select * from t where p = 'it\\\\'s' and a = 1\")\n} else {\n  add_key(q3, \"SELECT name FROM t WHERE path = 'C:\\\\' AND note = 1 -- it's\")\n}\nsql_cover(q3)\n",
+	// constant literals with literals inside, written into in place by every run (with point-dependent values) and read back
+	"nested.p": "a = [[0, 0], [1, 1]]\nm = {\"limits\": [10, 20], \"d\": {\"z\": 0}}\na[0][1] = n\nm[\"limits\"][0] = m[\"limits\"][0] + n\nm[\"d\"][\"z\"] = m[\"d\"][\"z\"] + 1\nfor s in a {\n  s[0] = s[0] + n\n}\nfor i = 0; i < 2; i = i + 1 {\n  t = [[i], {\"k\": [i]}]\n  t[0][0] = t[0][0] + n\n  t[1][\"k\"][0] = t[1][\"k\"][0] + 1\n  add_key(nt, t)\n}\nadd_key(na, a)\nadd_key(nm, m[\"limits\"])\nadd_key(nz, m[\"d\"][\"z\"])\n",
 	// a callee whose builtin fails at run time with an error built from load-time data
 	"dtfail.p": "add_key(c1, 1)\nuse(\"dtbad.p\")\nadd_key(c2, 2)\n",
 	"dtbad.p":  "add_key(ts3, 1700000000)\ndatetime(ts3, \"s\", \"no-such-layout-name\")\nadd_key(after_dt, 1)\n",
@@ -137,7 +139,7 @@ func (k c16) Run(c *mon.Ctx, workload string, i int64) {
 		c.Violate("shared-set-rejected", fmt.Sprint(errs), nil)
 		return
 	}
-	runnable := []string{"grok.p", "use.p", "mix.p", "lib2.p", "usefail.p", "usefail.p", "use3.p", "use5.p", "use6.p", "zones.p", "zones.p", "dtfail.p", "dtbad.p", "leak.p", "leak.p", "reader.p", "reader.p", "sql.p", "sql.p"}
+	runnable := []string{"grok.p", "use.p", "mix.p", "lib2.p", "usefail.p", "usefail.p", "use3.p", "use5.p", "use6.p", "zones.p", "zones.p", "dtfail.p", "dtbad.p", "leak.p", "leak.p", "reader.p", "reader.p", "sql.p", "sql.p", "nested.p", "nested.p"}
 	// generated sources for the parsers
 	var genSrcs []string
 	for j := 0; j < 20; j++ {
